@@ -25,7 +25,7 @@ ALL_OPS = ["krig_u", "krig_m", "krig_mb", "neigh_u", "neigh_m", "neigh_mb", "xva
            "simtub_on_grid"]
 F_OPS = ["krig_u", "krig_m", "krig_mb", "neigh_u", "neigh_m", "xvalid_u", "xvalid_m", "drift"]
 V_OPS = ["krig_u", "krig_m", "xvalid_u", "cov_sym", "drift"]
-T_OPS = ["t_krig_u", "t_krig_m", "t_simtub", "t_simtub_grid", "t_simtub_nc", "t_migrate", "t_migrate_ball"]
+T_OPS = {}          # target-writing operations: name -> "compared with the reduced target Db", from the spec
 
 BOOL = "{TRUE, FALSE}"
 LAYOUTS = {
@@ -423,7 +423,7 @@ class _Dump:
         return self.ck.disagree(rec, replay)
 
 
-def compare_target(ck, counts, tc, op, res, expect, tkeep):
+def compare_target(ck, counts, tc, op, res, expect, tkeep, reduce_promised):
     ck = _Dump(ck)
     rec = {"op": op, "form": "target", "predicted_by_model": False, "layout": "targets",
            "target_selection": "none" if tc["tsel"][0] == "none" else "some-off" if "off" in tc["tsel"] else "all-on"}
@@ -435,7 +435,8 @@ def compare_target(ck, counts, tc, op, res, expect, tkeep):
         ck.disagree(dict(rec, form="crash", issue="crash", detail=res["crash"]), replay)
         return
     M, R = res["M"], res["R"]
-    nt = 9 if op == "t_simtub_grid" else 5
+    grid = op.startswith("t_sim_") and op.split("_")[3] == "g"
+    nt = GEOM["gnx"] ** 2 if grid else 5
     exp = [expect[k % 5] for k in range(nt)]
     if M["st"] != "ok":
         if "value" in exp:
@@ -444,7 +445,7 @@ def compare_target(ck, counts, tc, op, res, expect, tkeep):
     ncol = M["i"][0]
     cols = [M["v"][k * nt:(k + 1) * nt] for k in range(ncol)]
     prior = M["v"][ncol * nt:]
-    base = 200 if op == "t_simtub_grid" else 100
+    base = 200 if grid else 100
     if prior != [float(base + k) for k in range(nt)]:
         ck.disagree(dict(rec, issue="prior_modified", detail="pre-existing column modified"), replay)
         return
@@ -457,15 +458,26 @@ def compare_target(ck, counts, tc, op, res, expect, tkeep):
             if exp[t] == "value" and col[t] is None and op not in ("t_migrate", "t_migrate_ball"):
                 ck.disagree(dict(rec, issue="active_undefined", detail="active target left undefined"), replay)
                 return
-    if op in ("t_krig_u", "t_krig_m", "t_migrate", "t_migrate_ball") and R["st"] == "ok":
-        nr = len(tkeep)
-        rcols = [R["v"][k * nr:(k + 1) * nr] for k in range(R["i"][0])]
-        for a, b in zip(cols, rcols):
-            for k, pos in enumerate(tkeep):
-                if not close(a[pos - 1], b[k], TOL_KRIG):
-                    ck.disagree(dict(rec, issue="differs_from_reduced",
-                                     detail="active target %d differs from the reduced target Db" % pos), replay)
-                    return
+    if reduce_promised:
+        # the active sites hold what the operation computes on the target Db reduced to them (same seed)
+        keep_t = [t + 1 for t in range(nt) if exp[t] == "value"] if grid else tkeep
+        if keep_t:
+            if R["st"] != "ok":
+                ck.disagree(dict(rec, issue="differs_from_reduced", detail="operation fails on the reduced target Db only"), replay)
+                return
+            nr = len(keep_t)
+            rcols = [R["v"][k * nr:(k + 1) * nr] for k in range(R["i"][0])]
+            if len(rcols) != len(cols):
+                ck.disagree(dict(rec, issue="differs_from_reduced", detail="number of output variables differs"), replay)
+                return
+            for a, b in zip(cols, rcols):
+                for k, pos in enumerate(keep_t):
+                    if not close(a[pos - 1], b[k], TOL_KRIG):
+                        ck.disagree(dict(rec, issue="differs_from_reduced",
+                                         detail="active target %d holds %r, %r on the target Db reduced to the active sites"
+                                                % (pos, a[pos - 1], b[k])), replay)
+                        return
+            counts["target_reduce_ok"] += 1
     counts["target_ok"] += 1
 
 
@@ -593,7 +605,7 @@ def run_targets(ck, aux, exe, workers, totals):
     for k in range(workers):
         for r in vlib.read_ndjson("%s.%d.ndjson" % (outp, k)):
             t = cases[r["id"]]
-            compare_target(ck, counts, t, r["op"], r, t["expect"], t["tkeep"])
+            compare_target(ck, counts, t, r["op"], r, t["expect"], t["tkeep"], T_OPS[r["op"]])
     for k, v in counts.items():
         totals["cmp"][k] += v
     if counts["target_compared"] != len(cases) * len(T_OPS):
@@ -617,6 +629,8 @@ def run(tier):
     aux = vlib.tlc_emit_json("EmitUsableAux", auxcfg, os.path.join(ck.work, "aux.json"))
     geom = dict(aux["geom"], seed=vlib.seed())
     GEOM.update(aux["geom"])
+    for o in aux["target_ops"]:
+        T_OPS[o["op"] if isinstance(o["op"], str) else "_".join(o["op"])] = o["reduce"]
     json.dump(geom, open(os.path.join(ck.work, "config.json"), "w"))
     totals = {"states": 0, "transitions": 0, "cases": 0, "runs": 0,
               "cmp": collections.Counter(), "feat": collections.Counter(), "dev": collections.Counter()}
@@ -627,7 +641,7 @@ def run(tier):
     for ft in ("sel_off", "coord_na", "zall_na", "hetero", "f_na", "v_na", "odd_sel", "none_usable", "clean"):
         if totals["feat"][ft] == 0:
             raise Broken("no pattern with feature %s was generated" % ft)
-    for key in ("perturb_ok", "reduce_ok", "spec_ok", "target_ok"):
+    for key in ("perturb_ok", "reduce_ok", "spec_ok", "target_ok", "target_reduce_ok"):
         if totals["cmp"][key] == 0:
             raise Broken("comparison form %s never succeeded: the check is vacuous" % key)
     ck.cov["states"] = totals["states"]
@@ -644,7 +658,7 @@ def run(tier):
     ck.cov["rule"] = ("every Db pattern enumerated by TLC (selection cell x coordinates x each variable x external drift x "
                       "measurement error, per sample) x every operation of the catalogue, executed on the real masked Db, "
                       "on a copy with the content of the unusable samples changed and on the physically reduced Db; "
-                      "plus every selection pattern of 5 target sites x 7 writing operations; patterns are distinct by "
+                      "plus every selection pattern of 5 target sites x 16 writing operations; patterns are distinct by "
                       "construction (one TLC state each); non-trivial = at least one sample or datum is unusable "
                       "(evaluations = library runs: masked + perturbed + reduced per pattern and operation)")
     ck.assumptions += [
